@@ -3,6 +3,7 @@
 // Contracts for package jt808, read by /verif/govc. Comment-only; never compiled into the library.
 package jt808
 
-// A message handed to a body parser was produced by NewJTMessage (+ Decode): the three objects exist.
-//@ valid *JTMessage m: m != nil && m.Header != nil && m.Header.Property != nil
+// A message handed to a body parser was produced by NewJTMessage (+ Decode): the three objects exist and the
+// header names one of the protocol versions of the standard (2011, 2013, 2019).
+//@ valid *JTMessage m: m != nil && m.Header != nil && m.Header.Property != nil && m.Header.ProtocolVersion >= 1 && m.Header.ProtocolVersion <= 3
 //@ valid *Header h: h != nil && h.Property != nil
